@@ -49,7 +49,12 @@ meta={"seed":id,"property":id.split('-')[0],"builds":build=="","repo_tests":test
       "checks_run":json.loads(res),"how":"seedcheck.sh: patch applied to a scratch copy of /repo; go test -vet=off -count=1 ./...; demo copied into the package dir; checks run with VERIF_REPO=<copy> ./run.sh <id> quick"}
 p='/verif/seeded/%s/meta.json'%id
 try:
-    old=json.load(open(p)); meta["needs"]=old.get("needs",""); meta["notes"]=old.get("notes","")
+    old=json.load(open(p))
+    for k in ("needs","notes","change","detected_by","final_verification"):
+        if k in old: meta[k]=old[k]
+    if old.get("checks_run"):
+        seen={c["check"] for c in meta["checks_run"]}
+        meta["checks_run"]+= [c for c in old["checks_run"] if c["check"] not in seen]
 except Exception: pass
 json.dump(meta,open(p,'w'),indent=1)
 PY
